@@ -71,7 +71,11 @@ partial def ty (x : SX) : R Ty :=
   | .atom "string" => pure .string
   | .list [.atom "n", l, s] => do pure (.named (← nat l) (← name s))
   | .list [.atom "fn", .list ps, c, r] => do pure (.func (← tys ps) (← cst c) (← ty r))
-  | .list [.atom "arr", c, e] => do pure (.array (← cst c) (← ty e))
+  | .list [.atom "arr", c, e] => do pure (.array 1 (← cst c) (← ty e))
+  | .list [.atom "arrn", n, c, e] => do pure (.array (← nat n) (← cst c) (← ty e))
+  | .list (.atom "tup" :: ms) => do pure (.tuple (← tys ms))
+  | .list [.atom "rng", n] => do pure (.range (← nat n))
+  | .list [.atom "slc", n, c, e] => do pure (.slice (← nat n) (← cst c) (← ty e))
   | _ => fail "ty"
 partial def tys (xs : List SX) : R TyList :=
   match xs with
@@ -132,6 +136,13 @@ partial def expr (x : SX) : R Expr :=
   | .list (.atom "arr" :: l :: c :: t :: es) => do
       pure (.array (← nat l) (← exprs es) (← cst c) (← ty t))
   | .list (.atom "deref" :: l :: a :: idx) => do pure (.deref (← nat l) (← expr a) (← exprs idx))
+  | .list (.atom "sub" :: es) => do pure (.sub (← exprs es))
+  | .list (.atom "tuple" :: l :: .list ms :: es) => do pure (.tuple (← nat l) (← exprs es) (← tys ms))
+  | .list [.atom "proj", l, a, il, i] => do pure (.proj (← nat l) (← expr a) (← nat il) (← nat i))
+  | .list (.atom "range" :: l :: bs) => do pure (.range (← nat l) (← exprs bs))
+  | .list (.atom "slice" :: l :: a :: bs) => do pure (.slice (← nat l) (← expr a) (← exprs bs))
+  | .list (.atom "pipe" :: l :: a :: f :: args) => do
+      pure (.pipe (← nat l) (← expr a) (← expr f) (← exprs args))
   | .list (.atom "lc" :: l :: e :: c :: t :: qs) => do
       pure (.listcomp (← nat l) (← expr e) (← quals qs) (← cst c) (← ty t))
   | _ => fail "expr"
